@@ -294,6 +294,9 @@ func Path(v ssa.Value) string {
 		return Path(x.X)
 	case *ssa.MakeInterface:
 		return Path(x.X)
+	case *ssa.MakeSlice:
+		// a slice made in this function: its elements are addressable memory of the function
+		return "$" + x.Name()
 	}
 	return ""
 }
